@@ -9,7 +9,7 @@ META = dict(
     rule="operation sequences over the alphabet of harness/arrlib.py (append 0/1/2 rows, list, "
          "scalar, other dtype/byte order/layout, bad shape, iterappend of 2 chunks / nothing, "
          "truncate -1/0/1/too-large/non-int, assignment, reopen, mode r/r+, metadata set/clear): "
-         "bounded-exhaustive up to a fixed length from empty and non-empty 1-D..3-D starts plus "
+         "bounded-exhaustive up to length 2 (thorough tier: length 3 sampled) from empty and non-empty 1-D..3-D starts plus "
          "random longer sequences, over the 13 types x 2 byte orders; a case is non-trivial if "
          "at least one operation changed the array; distinct by (type, order, shape, letters)",
     trusted_base=[
@@ -38,8 +38,11 @@ def gen(ctx):
                 nt = NUMTYPES[ti % 13]
                 bo = ('little', 'big')[(ti // 13) % 2]
                 ti += 1
+                if n == 3 and ti % 3:
+                    continue        # (depth 3 is sampled: the alphabet has grown to 22 letters)
                 cases.append(history_case(r, nt, bo, sh, letters))
-    ctx.extra['exhaustive_depth'] = L
+    ctx.extra['exhaustive_depth'] = min(L, 2)
+    ctx.extra['depth_3'] = 'sampled, one sequence in 3' if L >= 3 else 'not run in this tier'
     # every type x byte order with a fixed rich sequence
     for nt in NUMTYPES:
         for bo in ('little', 'big'):
